@@ -1,4 +1,5 @@
 import BppProofs.Lemmas.Rand
+import BppProofs.Lemmas.RandRcont
 /-!
 # C18 — random draws   (RandomTools, ContingencyTableGenerator, ContingencyTableTest, discrete rand)
 
@@ -113,5 +114,52 @@ theorem pickFromCumSum_unrepaired_witness :
 example : getSample [10, 20, 30] 2 false [] [2, 0, 1] = .ok [30, 10] := rfl
 example : getSample [10, 20, 30] 4 true [0, 2, 2, 1] [] = .ok [10, 30, 30, 20] := rfl
 example : pickOne [1, 2, 3, 4] false 1 = .ok (2, [1, 4, 3]) := rfl
+
+/-! ## random contingency tables (AS159) -/
+
+/-- `rcont2_margins`: for ALL margins and ALL values the inverse-cdf walk can stop at, the table
+returned by `rcont2` (after `fix:` f276286) has the requested shape, non-negative entries, and
+exactly the requested row and column totals -/
+theorem rcont2_margins (nrowt ncolt : List Nat) (picks : List (List Int)) (T : List (List Int))
+    (h : rcont2 nrowt ncolt picks = .ok T) :
+    marginsOk nrowt ncolt T = true := rcont2_marginsOk nrowt ncolt picks T h
+
+/-- `marginsOk` spelled out -/
+theorem marginsOk_iff (nrowt ncolt : List Nat) (T : List (List Int)) :
+    marginsOk nrowt ncolt T = true ↔
+      T.length = nrowt.length ∧ (∀ row ∈ T, row.length = ncolt.length ∧ ∀ x ∈ row, 0 ≤ x) ∧
+      T.map List.sum = nrowt.map Int.ofNat ∧ colSums ncolt.length T = ncolt.map Int.ofNat := by
+  simp only [marginsOk, Bool.and_eq_true, beq_iff_eq, List.all_eq_true, decide_eq_true_eq]
+  tauto
+
+/-- the repaired code never indexes the log-factorial table outside `0..ntot`, whatever the
+margins and the choices (the unrepaired code did: `rcont2_unrepaired_witness`) -/
+theorem rcont2_reads_in_bounds (nrowt ncolt : List Nat) (picks : List (List Int)) :
+    rcont2 nrowt ncolt picks ≠ .error .ub := rcont2_no_ub nrowt ncolt picks
+
+/-- margins that are refused: fewer than two rows / columns, or different totals -/
+theorem rcont2_rejects (nrowt ncolt : List Nat) (picks : List (List Int)) :
+    (nrowt.length < 2 ∨ ncolt.length < 2 ∨ nrowt.sum ≠ ncolt.sum) → rcont2 nrowt ncolt picks = .error .bpp := by
+  intro h
+  unfold rcont2 rcont2With
+  by_cases h1 : nrowt.length < 2 ∨ ncolt.length < 2
+  · rw [if_pos (by simpa using h1)]
+  · have h2 : nrowt.sum ≠ ncolt.sum := by tauto
+    rw [if_neg (by simpa using h1), if_pos (by simpa using h2)]
+
+/-- the unrepaired starting value `ia * (size_t)(id/ie + 0.5)`: for rows (5,1) and columns (3,3)
+the very first cell starts at `nlm = 5 > id = 3` and reads `fact_[id - nlm]` out of bounds, for
+every choice.  On the real code: seed 39 returns the table `5 0 / 2^64-2 3`
+(corpus/C18/rcont2-cast.txt). -/
+theorem rcont2_unrepaired_witness (picks : List (List Int)) :
+    rcont2Unrepaired [5, 1] [3, 3] picks = .error .ub := by
+  simp [rcont2Unrepaired, rcont2With, rowsLoop, rowLoop, startCellUnrepaired, factReadsOk]
+
+/-! non-vacuity: tables are produced, several values of a cell are reachable -/
+example : rcont2 [5, 1] [3, 3] [[3]] = .ok [[3, 2], [0, 1]] := by decide
+example : rcont2 [5, 1] [3, 3] [[2]] = .ok [[2, 3], [1, 0]] := by decide
+example : rcont2 [5, 1] [3, 3] [[4]] = .error .unreachable := by decide
+example : rcont2 [4, 6, 5] [7, 8] [[2], [3]] = .ok [[2, 2], [3, 3], [2, 3]] := by decide
+example : rcont2 [0, 0] [0, 0] [] = .ok [[0, 0], [0, 0]] := by decide
 
 end Bpp.C18
